@@ -8,5 +8,5 @@ import (
 
 func TestReplay(t *testing.T) {
 	SetupSeeds()
-	vrt.ReplayMain(map[string]func(){"Harness_builtin": Harness_builtin, "Harness_seeded": Harness_seeded, "Harness_compose": Harness_compose})
+	vrt.ReplayMain(map[string]func(){"Harness_builtin": Harness_builtin, "Harness_seeded": Harness_seeded, "Harness_compose": Harness_compose, "Harness_twomaps": Harness_twomaps})
 }
